@@ -87,11 +87,23 @@ func init() {
 			Rule{Name: "E15.self", Run: runSelfCompare}, Rule{Name: "E15.collect", Run: runCollectAll}, Rule{Name: "E15.parallel", Run: runParallelIndex},
 			Rule{Name: "E15.stale", Run: runStaleElementState}, Rule{Name: "E15.siblings", Run: runSiblingChildCons}, Rule{Name: "E15.copy0", Run: runZeroLenCopy},
 			Rule{Name: "E15.case", Run: runAsymmetricNormalisation}, Rule{Name: "E14.params", Run: runParamPermutation}, Rule{Name: "E16.lost", Run: runLostUpdate}, Rule{Name: "E16.dead", Run: runDeadStore},
-			Rule{Name: "E15.flag", Run: runSearchFlagReset}, Rule{Name: "E15.ctx", Run: runCtxLeak}, Rule{Name: "E15.record", Run: runRecordThenReject}, Rule{Name: "E16.premature", Run: runPrematureUse}, Rule{Name: "E15.convdir", Run: runConversionDirection}, Rule{Name: "E15.resumed", Run: runResumedSearch}, Rule{Name: "E11.lookupblock", Run: runLookupBlockComplete})
+			Rule{Name: "E15.flag", Run: runSearchFlagReset}, Rule{Name: "E15.ctx", Run: runCtxLeak}, Rule{Name: "E15.record", Run: runRecordThenReject}, Rule{Name: "E16.premature", Run: runPrematureUse}, Rule{Name: "E15.convdir", Run: runConversionDirection}, Rule{Name: "E15.resumed", Run: runResumedSearch}, Rule{Name: "E15.singlepass", Run: runSinglePassLoop}, Rule{Name: "E11.pathid", Run: runPathIdentity}, Rule{Name: "E11.lookupblock", Run: runLookupBlockComplete})
 	}
 	propRules["C18"] = append(propRules["C18"], Rule{Name: "E2.poskeys", Run: runPosKeys}, Rule{Name: "E15.collect", Run: runCollectAll}, Rule{Name: "E6.more", Run: runE6More}, Rule{Name: "E6.trim", Run: runByteTrim}, Rule{Name: "E6.column", Run: runColumnOrder}, Rule{Name: "E8.completion", Run: runCompletionContainment})
 	propRules["C19"] = append(propRules["C19"], Rule{Name: "E11.consumers", Run: runLookupConsumers})
 	propRules["C19"] = append(propRules["C19"], Rule{Name: "E13.evalctx", Run: runEvalContextAgreement})
+	for _, pid := range []string{"C03", "C04", "C05", "C13"} {
+		propRules[pid] = append(propRules[pid], Rule{Name: "E3.aliasappend", Run: runAppendThroughAlias})
+	}
+	for _, pid := range []string{"C17", "C04"} {
+		propRules[pid] = append(propRules[pid], Rule{Name: "E5.order", Run: runCopyKeepsOrder})
+	}
+	for _, pid := range []string{"C02", "C18", "C05"} {
+		propRules[pid] = append(propRules[pid], Rule{Name: "E11.pathid", Run: runPathIdentity})
+	}
+	for _, pid := range []string{"C18", "C02"} {
+		propRules[pid] = append(propRules[pid], Rule{Name: "E6.norebase", Run: runNoRebase})
+	}
 	for _, pid := range []string{"C12", "C02", "C06", "C08", "C13"} {
 		propRules[pid] = append(propRules[pid], Rule{Name: "E8.ownexpr", Run: runOwnExprImmutable})
 	}
